@@ -19,8 +19,9 @@ class C04(Property):
                          "sample_timing_rep", "sample_records_rep", "sample_timing_text", "sample_encodes"]
     partial_theorems = {
         "record_lines_accepted_editor / _difficulty / _general / _events, record_blocks_accepted_and_recovered":
-            "law-dependent: proved for every number codec satisfying CodecLaws (+ IntPrintLaw for AudioLeadIn), shown satisfiable by Lemmas/ToyCodec.lean; not proved of Rust's "
-            "Display/FromStr. record_lines_accepted_metadata / _colours, version_line_parses, encode_shape, lines_dispatched need no law",
+            "law-dependent: proved for every number codec satisfying CodecLaws (+ IntPrintLaw for AudioLeadIn), shown satisfiable by Lemmas/ToyCodec.lean; CodecLaws is now also a theorem "
+            "for the model's IEEE codec (C02: parseBits_printBits_f64/_f32, printBits_clean, codecLaws_float(32) under the bit-cast hypothesis FloatBitsLaw about Lean's opaque Float); IntPrintLaw "
+            "likewise (C02: printBits_intBits_f64, intPrintLaw_float under FloatOfIntLaw). Not proved: that Rust's Display/FromStr equal the model codec (tested by lib/codecgen.py). record_lines_accepted_metadata / _colours, version_line_parses, encode_shape, lines_dispatched need no law",
         "record_lines_accepted_*": "stated for section records that are representable (Rt*.Rep*: self-trimmed single-line texts, file names without `//`, backslash (and, for the background, "
             "comma / outer quotes), integers within ±(2^31−1), floats representable by the codec within the parse limit and inside the field's clamp, colour components ≤ 255, custom colour "
             "names without `:` / `//` / leading `Combo`, pairwise distinct). That every *decoded* map satisfies these (the `Decoded` invariant of DESIGN 5.4) is not proved here",
@@ -56,7 +57,7 @@ class C04(Property):
     level_text = ("Lean 4 theorems over the encoder and decoder models: the encoded text is the version line followed by the eight blocks in canonical order, each introduced by a blank line and "
                   "starting with the header its decoder recognises (encode_shape, headers_recognised); the version line parses back to the map's version (version_line_parses); each of the six "
                   "record blocks is its header plus an explicit list of LF-terminated record lines (record_blocks_are_lines), every one of which is neither a header nor skipped and is accepted "
-                  "by its section's parser in any state (record_lines_accepted_<section>; sections with floats: for every lawful number codec); reading the text back yields exactly its own "
+                  "by its section's parser in any state (record_lines_accepted_<section>; sections with floats: for every lawful number codec — the model's IEEE codec is proved lawful at the bit level, C02); reading the text back yields exactly its own "
                   "end-trimmed lines (encoded_text_lines, via C10) and the framing driver hands each block's lines, in order, to exactly that section's parser (lines_dispatched, via C05); "
                   "file level for the record blocks: record_blocks_accepted_and_recovered; hit-object lines of all four kinds (circles, sliders incl. the whole path-string grammar over the decidable class RepPath, "
                   "spinners, hold notes): hitobject_lines_accepted, slider_line_accepted. "
@@ -71,7 +72,8 @@ class C04(Property):
     trusted_base = [
         "Lean 4.33.0 kernel; axioms ⊆ {propext, Classical.choice, Quot.sound} per #print axioms",
         "hand-written Model/Encode.lean (+ decode model) tied to /repo by the `enc` differential: identical text on every case of this run",
-        "Rust Display for f32/f64/i32/u8 (model codec validated against Rust by lib/codecgen.py on >10^6 values)",
+        "Rust Display for f32/f64/i32/u8 (model codec validated against Rust by lib/codecgen.py on >10^6 values; the model codec itself is proved to satisfy CodecLaws in Props/C02Codec.lean "
+        "up to the runtime hypotheses FloatBitsLaw / FloatOfIntLaw)",
     ]
     assumptions = ["maps are obtained by decoding (the property's domain); edited maps are C03's domain"]
     nontrivial_rule = "decoded maps from the C01/C02 generators incl. non-chronological and hostile inputs; non-trivial = encoding has more than 40 lines"
